@@ -82,9 +82,16 @@ def followResolves (full : List VEnt) (after : List Snap) (paths : List Path) : 
 def hSync (j : Json) : Except String Json := do
   let full ← parseView j
   let sf ← parseSFilterWith j full
-  let view := match sf with
-    | some cfg => F.senderView Fix.f9 cfg full
-    | none => F.senderView Fix.f9 { inc := [], exc := [] } full
+  -- an optional second filter stacked on top of the first (NewFilterFS(NewFilterFS(fs, sfilter), sfilter2))
+  let sf2 : Option F.Cfg := match j.getObjVal? "sfilter2" with
+    | .ok f => some { inc := P.parsePatterns ((getHexArr f "include").toOption.getD []),
+                      exc := P.parsePatterns ((getHexArr f "exclude").toOption.getD []) }
+    | .error _ => none
+  let view := match sf, sf2 with
+    | some cfg, some cfg2 => F.senderViewN Fix.f9 [cfg, cfg2] full
+    | some cfg, none => F.senderView Fix.f9 cfg full
+    | none, some cfg2 => F.senderView Fix.f9 cfg2 full
+    | none, none => F.senderView Fix.f9 { inc := [], exc := [] } full
   let before ← (← getArr j "before").toList.mapM parseSnap
   let after ← (← getArr j "after").toList.mapM parseSnap
   let o := parseSyncOpt ((j.getObjVal? "opt").toOption.getD (jobj []))
